@@ -291,6 +291,9 @@ def check_routing(prop, tier, seed, replay):
                 t1 = os.path.join(work, "re.ndjson")
                 check_life.run_life("C18", t1, os.path.join(work, "re.json"), only=rp["scenario"])
                 bad, _, _ = check_life.validate_life(t1, work)
+            elif rp.get("scenario") == "sys":
+                import check_sys
+                bad = check_sys.replay(prop, rp, work)
             elif rp.get("scenario") == "m3t":
                 import check_chan
                 bad = check_chan.free_check(prop, work, rp.get("seed", seed), 6, bool(rp.get("faults")))[1]
@@ -411,6 +414,16 @@ def check_routing(prop, tier, seed, replay):
                        "reason": why, "trace": clines[max(0, line - 40):line + 1]}, open(path, "w"), indent=1)
             reported.append(path)
         allbad += len(fconf)
+        # C05: the same kind of workload recorded with every event of every layer and validated against the
+        # composition Gorums.tla (ids manager-wide unique, also across 2^32 calls; the reply chain end to end)
+        syscov = None
+        if prop == "C05":
+            import check_sys
+            sysdesign = check_sys.design_level(work, tier)
+            log("design level: Gorums.tla (%s): %d distinct states, invariants hold" % (sysdesign["config"], sysdesign["states"]))
+            syscov, sysbad = check_sys.phase(prop, tier, seed, work, reported)
+            syscov["design_level"] = sysdesign
+            allbad += sysbad
         cov = {"states": states, "transitions": trans, "traces_validated_against_impl": total_exec - allbad + m3[0] + m3f[0],
                "evaluations": total_calls + m3calls, "distinct_nontrivial": nontriv,
                "rule": "programs = the C18 family of FifoGen.tla: every call variant (16 methods x send-waiting) x handler "
@@ -425,6 +438,8 @@ def check_routing(prop, tier, seed, replay):
                "lifecycle_scenarios": nscen,
                "transport_level_free_workloads": {"node_traces": facc, "events": fev, "calls": tcalls,
                                                   "unconfirmed": funconf, "faults": ffaults}}
+        if syscov:
+            cov["system_level_free_workloads"] = syscov
         write_evidence(prop, tier, seed, "model_checking", cov, time.time() - t0, allbad,
                        ["the router count is logged inside the router mutex; Route is logged before the hand-over to the "
                         "call's channel, so it always precedes the call's CallRecv",
